@@ -17,7 +17,7 @@ struct Obj : public celma::common::Singleton<Obj> {
 protected:
    Obj() : value(42) { ++ctor_count; }
 };
-Obj* got[3];
+Obj* got[3]; int seen[3];
 std::atomic<int> started, finished;
 alignas(ManagedThread) unsigned char mt_storage[sizeof(ManagedThread)];
 }
@@ -26,11 +26,14 @@ extern "C" void* vw_singleton_ptr_storage();
 
 // n threads race for the first access
 HX void hx_singleton(uint64_t nthreads) {
-   vs_mt_shared(&ctor_count, sizeof ctor_count); vs_mt_shared(got, sizeof got);
-   std::thread t1([] { got[0] = &Obj::instance(); });
-   std::thread t2([] { got[1] = &Obj::instance(); });
-   if (nthreads > 2) { std::thread t3([] { got[2] = &Obj::instance(); }); t3.join(); }
+   vs_mt_shared(&ctor_count, sizeof ctor_count); vs_mt_shared(got, sizeof got); vs_mt_shared(seen, sizeof seen);
+   // every thread looks at what the constructor wrote (ctor_count) right after it got the object: a reference handed out
+   // before the constructor has finished shows up as a data race on / a wrong value of ctor_count
+   std::thread t1([] { got[0] = &Obj::instance(); seen[0] = ctor_count; });
+   std::thread t2([] { got[1] = &Obj::instance(); seen[1] = ctor_count; });
+   if (nthreads > 2) { std::thread t3([] { got[2] = &Obj::instance(); seen[2] = ctor_count; }); t3.join(); vs_assert(seen[2] == 1, "a thread that obtained the singleton sees it completely constructed"); }
    t1.join(); t2.join();
+   vs_assert(seen[0] == 1 && seen[1] == 1, "a thread that obtained the singleton sees it completely constructed");
    vs_assert(ctor_count == 1, "singleton object is constructed exactly once");
    vs_assert(got[0] != nullptr && got[0] == got[1], "all threads get the same singleton object");
 }
